@@ -28,6 +28,16 @@ func (st *concState) counts(onlyDone bool) map[uint32]int {
 func (w *World) takeSnapshot() {
 	st := w.conc
 	s := &snapRec{file: NewSimFile(), ack: st.counts(true), applied0: st.counts(false)}
+	if st.or.snapfault {
+		for _, f := range w.cs.Faults {
+			switch f.Kind {
+			case "snap-write-call":
+				s.file.Plan = WritePlan{FailAtCall: f.At, FailAtByte: -1}
+			case "snap-write-byte":
+				s.file.Plan = WritePlan{FailAtByte: f.N}
+			}
+		}
+	}
 	st.snaps = append(st.snaps, s)
 	w.seq++
 	func() {
@@ -41,7 +51,21 @@ func (w *World) takeSnapshot() {
 		s.err = w.primary.Snapshot(s.file)
 	}()
 	s.applied1 = st.counts(false)
-	if s.err != nil && s.panicked == nil {
+	if st.or.snapfault && s.panicked == nil {
+		w.stats.Checks++
+		if s.file.Fired > 0 {
+			w.stats.fault("snapshot-write-fault-under-commits")
+			if s.stateLen > 0 {
+				w.stats.probe("fault-in-log-copy-phase")
+			}
+		}
+		switch {
+		case s.err == nil && s.file.Fired > 0:
+			w.fail(violation("snapshot-fault/unreported", "the destination writer returned an error (%d bytes accepted, %d of them after the recorder was closed) but Snapshot returned nil", len(s.file.Data), len(s.file.Data)-s.stateLen))
+		case s.err != nil && s.file.Fired == 0:
+			w.fail(violation("snapshot-fault/spurious-error", "Snapshot returned %v although the destination writer never failed", s.err))
+		}
+	} else if s.err != nil && s.panicked == nil {
 		w.fail(violation("snapshot-error", "Snapshot returned %v while transactions were committing", s.err))
 	}
 	if len(s.applied1) > 0 {
@@ -334,4 +358,32 @@ func clipB(b []byte) []byte {
 		return b[:24]
 	}
 	return b
+}
+
+// snapfaultQuiescent is the C14 part B oracle once all threads have finished: nothing left
+// in the temp dir, no descriptor leaked, and a snapshot to a healthy writer restores to
+// the model.
+func (w *World) snapfaultQuiescent() {
+	if left := tmpEntries(); len(left) > 0 {
+		w.fail(violation("snapshot-leak/temp-file", "after the run (a snapshot failed: %v) the temp dir holds %v", w.conc.snaps[0].err, left))
+		return
+	}
+	if fd := fdCount(); fd != w.conc.fd0 {
+		w.fail(violation("snapshot-leak/fd", "the number of open descriptors changed from %d to %d over a run with a faulty snapshot destination", w.conc.fd0, fd))
+		return
+	}
+	good := NewSimFile()
+	if err := w.primary.Snapshot(good); err != nil {
+		w.fail(violation("after-failed-snapshot/snapshot-error", "a Snapshot to a healthy writer after the run returned %v", err))
+		return
+	}
+	fresh := w.newCollection(nil)
+	if err := fresh.Restore(NewSimReader(good.Data, nil, 0)); err != nil {
+		w.fail(violation("after-failed-snapshot/restore-error", "%v", err))
+		return
+	}
+	if v := CompareDump(fresh, w.model, w.cs.Cfg.KeyAlpha, nil); v != nil {
+		v.Sig = "after-failed-snapshot/" + v.Sig
+		w.fail(v)
+	}
 }
